@@ -283,7 +283,7 @@ def _is_hello(term: ast.AST) -> bool:
     return False
 
 
-@rule('C03.R6', 'required outputs gate sending: do_send starts from all(required id is connected)')
+@rule('C03.R6', 'required outputs gate sending: do_send starts from all(required id is connected), where a client that this round times out is not connected')
 def r6(rr, repo):
     za = anchors(repo)
     n = 0
@@ -306,6 +306,26 @@ def r6(rr, repo):
                 and 'client_id' in U(c.comparators[0]) and 'clients' in U(c.comparators[0])
         rr.ob('the permission to send is initialised from all(id in connected ids for id in self.outs_required)', ok, za.mod, first.node, witness=first.args[0][:200], key='outs-required')
     rr.floor('initialisations of do_send', n, 1, za.mod, za.S_poll)
+    # "connected" excludes a client this very round is about to time out: the set the required ids are looked up in is built from clients whose last request is
+    # not older than the timeout (or after the eviction loop); otherwise the round that evicts a silent required consumer still publishes one frame
+    loops = [n_ for n_ in walk_scope(za.S_poll) if isinstance(n_, ast.For) and 'clients.items()' in U(n_.iter) and any(isinstance(x, ast.Delete) for x in ast.walk(n_))]
+    sets = [n_ for n_ in walk_scope(za.S_poll) if isinstance(n_, ast.Assign) and U(n_.targets[0]) == 'client_ids']
+    if len(loops) != 1 or len(sets) != 1:
+        rr.unresolved('poll_recv: cannot find the one eviction loop and the one set of connected client ids', za.mod, za.S_poll, key='outs-required-live-form')
+    else:
+        lp, st = loops[0], sets[0]
+        tests = [n_.test for n_ in lp.body if isinstance(n_, ast.If) and any(isinstance(x, ast.Delete) for x in n_.body)]
+        after = st.lineno > lp.end_lineno
+        comp = st.value.args[0] if isinstance(st.value, ast.Call) and st.value.args and isinstance(st.value.args[0], (ast.GeneratorExp, ast.ListComp, ast.SetComp)) else st.value if isinstance(st.value, (ast.SetComp,)) else None
+        filt = [U(i).replace(' ', '') for g in comp.generators for i in g.ifs] if comp is not None else []
+        live = False
+        if tests and isinstance(tests[0], ast.Compare) and len(tests[0].ops) == 1:
+            l, r, op = U(tests[0].left).replace(' ', ''), U(tests[0].comparators[0]).replace(' ', ''), tests[0].ops[0]
+            # eviction test `t_last < t_min`  <->  liveness filter `<x>.t_last >= t_min` (either orientation)
+            want = {(ast.Lt, f'.{l}>={r}'), (ast.Lt, f'{r}<=') } if isinstance(op, ast.Lt) else set()
+            live = any(f.endswith(f'.{l}>={r}') or f.endswith(f'{l}>={r}') or (f.startswith(f'{r}<=') and f.endswith(l)) or f == f'not{l}<{r}' for f in filt) and isinstance(op, ast.Lt)
+        rr.ob('a required output that is being timed out in this round does not count as connected', after or live, za.mod, st,
+              witness=f'client_ids built {"after" if after else "before"} the eviction loop, filter: {filt or "none"}, eviction test: {U(tests[0]) if tests else "?"}', key='outs-required-live')
 
 
 @rule('C03.R7', 'no frame is silently dropped by a reused id: the state hand-over discipline of C02.R7 (a second send() without a recv() must not reuse the consumed id)')
@@ -445,3 +465,10 @@ def r14(rr, repo):
             rr.ob("send() is offered exactly process_frames' result - on the first attempt and on every retry", bool(s_.args) and s_.args[0] == want, mod, s_.node, witness=(s_.args[0] if s_.args else '')[:100], key='loop-send-result')
         rr.ob('the processing precedes the send', p.events.index(pf[0]) < p.events.index(sends[0]), mod, sends[0].node, key='loop-order-send')
     rr.floor('iterations of loop_once that process a set', n, 4, mod, fn)
+
+
+@rule('C03.R15', "a join of sources of different speeds loses nothing: the faster source is not pumped ahead of the join while the slower one is awaited (its frames would pile up in the subscriber queue until the "
+                 "publisher's high-water mark drops some, the join then adopts the newer id and forces the slow source to skip) - shares C04.R10")
+def r15(rr, repo):
+    from .c04 import r10 as c04r10
+    c04r10(rr, repo)
